@@ -10,10 +10,10 @@ pub const BMFF_C2PA_UUID: [u8; 16] = [
     0xd8, 0xfe, 0xc3, 0xd6, 0x1b, 0x0e, 0x48, 0x3c, 0x92, 0x97, 0x58, 0x28, 0x87, 0x7e, 0xc4, 0x81,
 ];
 
-fn be32(b: &[u8], o: usize) -> Option<usize> {
+pub fn be32(b: &[u8], o: usize) -> Option<usize> {
     b.get(o..o + 4).map(|x| u32::from_be_bytes([x[0], x[1], x[2], x[3]]) as usize)
 }
-fn be64(b: &[u8], o: usize) -> Option<usize> {
+pub fn be64(b: &[u8], o: usize) -> Option<usize> {
     b.get(o..o + 8).map(|x| u64::from_be_bytes([x[0], x[1], x[2], x[3], x[4], x[5], x[6], x[7]]) as usize)
 }
 
@@ -24,7 +24,7 @@ pub fn bx(ty: &[u8; 4], body: &[u8]) -> Vec<u8> {
     v
 }
 
-fn full(ty: &[u8; 4], version: u8, body: &[u8]) -> Vec<u8> {
+pub fn full(ty: &[u8; 4], version: u8, body: &[u8]) -> Vec<u8> {
     let mut b = vec![version, 0, 0, 0];
     b.extend_from_slice(body);
     bx(ty, &b)
@@ -125,14 +125,14 @@ pub fn gen_mp4(rng: &mut Rng, existing: Option<&Store>, layout: u64, co64: bool)
     }
 }
 
-struct BmffBox {
-    ty: [u8; 4],
-    start: usize,
-    hdr: usize,
-    end: usize,
+pub struct BmffBox {
+    pub ty: [u8; 4],
+    pub start: usize,
+    pub hdr: usize,
+    pub end: usize,
 }
 
-fn bmff_boxes(b: &[u8], mut p: usize, end: usize) -> Option<Vec<BmffBox>> {
+pub fn bmff_boxes(b: &[u8], mut p: usize, end: usize) -> Option<Vec<BmffBox>> {
     let mut v = vec![];
     while p + 8 <= end {
         let mut size = be32(b, p)?;
@@ -211,12 +211,15 @@ pub fn bmff_samples(b: &[u8]) -> Option<Vec<Result<Vec<u8>, String>>> {
 
 pub fn lex_bmff(b: &[u8]) -> Option<Vec<Item>> {
     let mut v = vec![];
+    let fields = crate::embed_frag::offset_fields(b);
     for x in bmff_boxes(b, 0, b.len())? {
         let manifest = &x.ty == b"uuid" && b.get(x.start + x.hdr..x.start + x.hdr + 16) == Some(&BMFF_C2PA_UUID[..]);
-        // boxes that carry absolute offsets are compared structurally (type + size) here; the
-        // addressed bytes are compared by `check_offsets`
-        let bytes = if &x.ty == b"moov" || &x.ty == b"meta" || &x.ty == b"moof" {
-            (x.end - x.start).to_be_bytes().to_vec()
+        // boxes that carry absolute offsets are compared byte for byte with exactly those
+        // fields (stco / co64 / saio entries, file-offset iloc bases and extents, tfhd
+        // base_data_offset, tfra moof_offset — found by the independent field finder) zeroed;
+        // the addressed bytes are compared by `check_offsets`
+        let bytes = if &x.ty == b"moov" || &x.ty == b"meta" || &x.ty == b"moof" || &x.ty == b"mfra" {
+            crate::embed_frag::masked(b, x.start, x.end, &fields.fields)
         } else {
             b[x.start..x.end].to_vec()
         };
@@ -242,10 +245,34 @@ pub fn lex(fam: Family, b: &[u8]) -> Option<Vec<Item>> {
 
 /// C09: every absolute offset stored in the container still addresses the same bytes.
 pub fn check_offsets(cx: &mut Ctx, asset: &Asset, before: &[u8], after: &[u8], what: &str) {
+    check_offsets_prefixed(cx, asset, before, after, what, "")
+}
+
+/// The same with a class prefix (BMFF update-manifest layouts report under `update-…`).
+pub fn check_offsets_prefixed(cx: &mut Ctx, asset: &Asset, before: &[u8], after: &[u8], what: &str, prefix: &str) {
     if asset.family != Family::Bmff {
         return;
     }
+    let mut sub = Ctx { run: &mut *cx.run, prop: cx.prop, idx: cx.idx, tiff_legacy: cx.tiff_legacy };
+    let mut pcx = PrefixCtx { cx: &mut sub, prefix };
+    check_offsets_inner(&mut pcx, asset, before, after, what);
+}
+
+/// Forwards failures with the class prefixed.
+pub struct PrefixCtx<'a, 'b> {
+    pub cx: &'a mut Ctx<'b>,
+    pub prefix: &'a str,
+}
+
+impl PrefixCtx<'_, '_> {
+    pub fn fail(&mut self, class: &str, detail: String) {
+        self.cx.fail(&format!("{}{class}", self.prefix), detail)
+    }
+}
+
+fn check_offsets_inner(cx: &mut PrefixCtx, asset: &Asset, before: &[u8], after: &[u8], what: &str) {
     check_iloc_items(cx, asset, before, after, what);
+    crate::embed_frag::check_fragments(cx, before, after, what);
     let (Some(a), Some(b)) = (bmff_samples(before), bmff_samples(after)) else { return };
     if a.iter().any(|x| x.is_err()) {
         return; // the input itself was inconsistent
@@ -268,7 +295,7 @@ pub fn check_offsets(cx: &mut Ctx, asset: &Asset, before: &[u8], after: &[u8], w
 
 /// C09 for HEIF-style item locations: every item resolved per ISO 14496-12 §8.11.3 (file,
 /// idat and item construction methods) yields the same bytes before and after.
-fn check_iloc_items(cx: &mut Ctx, asset: &Asset, before: &[u8], after: &[u8], what: &str) {
+fn check_iloc_items(cx: &mut PrefixCtx, asset: &Asset, before: &[u8], after: &[u8], what: &str) {
     let Some(a) = crate::embed_heif::heif_items(before) else { return };
     if a.iter().any(|x| x.data.is_err()) {
         return; // the input itself was inconsistent
@@ -314,6 +341,12 @@ pub fn available(fam: Family) -> bool {
 pub fn gen_asset(fam: Family, rng: &mut Rng, existing: Option<&Store>) -> Asset {
     match fam {
         Family::Bmff => {
+            if rng.chance(1, 3) {
+                // fragmented: tfhd base_data_offset / default-base-is-moof, tfra, saio
+                let o = crate::embed_frag::gen_frag_opts(rng);
+                let layout = if existing.is_some() { rng.below(4) } else { 0 };
+                return crate::embed_frag::gen_fmp4(rng, existing, layout, o);
+            }
             // without an existing box only the position of mdat matters
             if rng.chance(1, 2) {
                 let p = crate::embed_heif::gen_params(rng);
@@ -367,6 +400,25 @@ pub fn replays(run: &mut Run, rng: &mut Rng, prop: &'static str) {
             }
         }
         run.count("replay_iloc");
+        // fragmented MP4: every layout × base mode × tfra version × saio version, one and two
+        // tracks, 1–3 fragments; growing / shrinking / equal store, then removal
+        use crate::embed_frag::{gen_fmp4, FragOpts};
+        for layout in 0u64..4 {
+            for abs_base in [false, true] {
+                for (tfra_v1, saio_v) in [(false, Some(0u8)), (true, Some(1u8)), (false, None)] {
+                    for (nfrag, ntracks) in [(1usize, 1usize), (3, 1), (2, 2), (3, 2)] {
+                        let o = FragOpts { nfrag, abs_base, tfra_v1, mfra: true, saio_v, ntracks };
+                        let mut r = rng.fork();
+                        let ex = gen_store(120, 1);
+                        let with = layout >= 1 || r.chance(1, 2);
+                        let a = gen_fmp4(&mut r, if with { Some(&ex) } else { None }, layout, o);
+                        let new_len = *r.pick(&[40usize, 120, 300]);
+                        one_case(run, prop, &a, &[Op::Write(gen_store(new_len, 2)), Op::Remove]);
+                    }
+                }
+            }
+        }
+        run.count("replay_fmp4");
     }
     if prop == "C12" {
         // F5: trailing data after the end marker
@@ -394,5 +446,14 @@ pub fn replays(run: &mut Run, rng: &mut Rng, prop: &'static str) {
             one_case(run, prop, &a, &[Op::BoxMap, Op::Write(gen_store(50 + k, 4)), Op::BoxMap, Op::Remove, Op::BoxMap]);
         }
         run.count("replay_jxl_boxes");
+        // a JPEG XL container whose last box is ftyp (no codestream yet): the placeholder /
+        // the inserted jumb box belongs after ftyp, not between the signature box and ftyp
+        {
+            let mut b = vec![0, 0, 0, 0x0c, 0x4a, 0x58, 0x4c, 0x20, 0x0d, 0x0a, 0x87, 0x0a];
+            b.extend_from_slice(&bx(b"ftyp", b"jxl \0\0\0\0jxl "));
+            let a = Asset { family: Family::Jxl, fmt: "jxl", bytes: b, desc: "jxl-ftyp-last+MUTATED9".into(), existing: None };
+            one_case(run, prop, &a, &[Op::BoxMap, Op::Write(gen_store(60, 4)), Op::BoxMap]);
+            run.count("replay_jxl_ftyp_last");
+        }
     }
 }
